@@ -915,10 +915,8 @@ fn parse_simple_selector_component(text: &str) -> IResult<&str, SelectorComponen
             tuple((skip_optional_whitespace, tag(">"), skip_optional_whitespace)),
             |_| SelectorComponent::CombChild,
         ),
-        map(
-            tuple((skip_optional_whitespace, tag("*"), skip_optional_whitespace)),
-            |_| SelectorComponent::Star,
-        ),
+        // Don't swallow white space around `*`: it is the descendant combinator.
+        map(tag("*"), |_| SelectorComponent::Star),
         map(parse_ws, |_| SelectorComponent::CombDescendant),
         parse_class,
         parse_hash,
